@@ -25,6 +25,7 @@ import (
 //@   usebody (*Encoder).Struct$1
 //@   usebody (*Decoder).Struct$1
 //@   ensures !tapeDropped
+//@   cover err == nil
 //@   ensures out.UniqueIdentifier == pl.UniqueIdentifier && out.ReplaceExisting == pl.ReplaceExisting && out.KeyWrapType == pl.KeyWrapType
 //@   ensures len(out.Attribute) == len(pl.Attribute) && arr(out.Attribute) == arr(pl.Attribute)
 //@   ensures err == nil ==> end && out.Object == pl.Object
@@ -44,6 +45,7 @@ func lemmaMirrorImportRequest(pl, out *ImportRequestPayload) (err error, end boo
 //@   usebody (*Decoder).Struct$1
 //@   ensures err != nil ==> !knownObjectType(pl.ObjectType)
 //@   ensures !tapeDropped
+//@   cover err == nil
 //@   ensures err == nil ==> end && out.ObjectType == pl.ObjectType && out.UniqueIdentifier == pl.UniqueIdentifier && out.Object == pl.Object
 
 func lemmaMirrorGetResponse(pl, out *GetResponsePayload) (err error, end bool) {
@@ -61,6 +63,7 @@ func lemmaMirrorGetResponse(pl, out *GetResponsePayload) (err error, end bool) {
 //@   usebody (*Decoder).Struct$1
 //@   ensures err != nil ==> !knownObjectType(pl.ObjectType)
 //@   ensures !tapeDropped
+//@   cover err == nil
 //@   ensures err == nil ==> end && out.ObjectType == pl.ObjectType && out.UniqueIdentifier == pl.UniqueIdentifier && out.Object == pl.Object
 //@   ensures err == nil && len(pl.Attribute) > 0 ==> len(out.Attribute) == len(pl.Attribute) && arr(out.Attribute) == arr(pl.Attribute)
 
@@ -79,6 +82,7 @@ func lemmaMirrorExportResponse(pl, out *ExportResponsePayload) (err error, end b
 //@   usebody (*Decoder).Struct$1
 //@   ensures err != nil ==> !knownObjectType(pl.ObjectType)
 //@   ensures !tapeDropped
+//@   cover err == nil
 //@   ensures err == nil ==> end && out.ObjectType == pl.ObjectType && out.Object == pl.Object
 //@   ensures err == nil ==> len(out.TemplateAttribute.Attribute) == len(pl.TemplateAttribute.Attribute) && arr(out.TemplateAttribute.Attribute) == arr(pl.TemplateAttribute.Attribute)
 
